@@ -47,6 +47,7 @@ type cliInv struct {
 	Preserve  *string
 	Stdin     *string
 	Flags     []string // minifier option flags, e.g. --js-keep-var-names, --css-precision=3
+	Ext       map[string]string // --ext.<extension>=<filetype or media type>
 }
 
 func (v cliInv) Args() []string {
@@ -86,6 +87,14 @@ func (v cliInv) Args() []string {
 		a = append(a, "-p="+*v.Preserve)
 	}
 	a = append(a, v.Flags...)
+	var exts []string
+	for k := range v.Ext {
+		exts = append(exts, k)
+	}
+	sort.Strings(exts)
+	for _, k := range exts {
+		a = append(a, "--ext."+k+"="+v.Ext[k])
+	}
 	if v.Output != "" {
 		a = append(a, "-o", v.Output)
 	}
@@ -131,6 +140,13 @@ func parseCLIArgs(args []string) cliInv {
 			v.Filters = append(v.Filters, "+"+val())
 		case a == "--exclude" || strings.HasPrefix(a, "--exclude="):
 			v.Filters = append(v.Filters, "-"+val())
+		case strings.HasPrefix(a, "--ext."):
+			if j := strings.IndexByte(a, '='); j >= 0 {
+				if v.Ext == nil {
+					v.Ext = map[string]string{}
+				}
+				v.Ext[a[len("--ext."):j]] = a[j+1:]
+			}
 		case strings.HasPrefix(a, "--"):
 			v.Flags = append(v.Flags, a)
 		default:
@@ -410,6 +426,17 @@ func cliExpect(tree []treeFile, v cliInv) cliExpected {
 		exp.Unmodelled = err.Error()
 		return exp
 	}
+	// --ext adds extension -> type entries (a short type name stands for its media type)
+	extMap := map[string]string{}
+	for k, t := range cliExtMap {
+		extMap[k] = t
+	}
+	for k, t := range v.Ext {
+		if mt, ok := cliExtMap[t]; ok {
+			t = mt
+		}
+		extMap[k] = t
+	}
 	var matchRe, filterRe []*regexp.Regexp
 	for _, m := range v.Match {
 		re, err := cliGlob(m)
@@ -427,14 +454,21 @@ func cliExpect(tree []treeFile, v cliInv) cliExpected {
 	}
 	mimetype := v.Type
 	if mimetype != "" && !strings.Contains(mimetype, "/") {
-		mt, ok := cliExtMap[mimetype]
+		mt, ok := extMap[mimetype]
 		if !ok {
 			return usage()
 		}
 		mimetype = mt
 	}
-	inputs := v.Inputs
-	output := v.Output
+	// absolute spellings of tree paths ($ROOT/...) name the same files
+	inputs := make([]string, len(v.Inputs))
+	for i, in := range v.Inputs {
+		inputs[i] = strings.TrimPrefix(strings.Replace(in, "$ROOT/", "", 1), "$ROOT")
+		if inputs[i] == "" {
+			inputs[i] = "."
+		}
+	}
+	output := strings.TrimPrefix(strings.Replace(v.Output, "$ROOT/", "", 1), "$ROOT")
 	if len(inputs) == 1 && inputs[0] == "-" {
 		inputs = nil
 	} else if output == "-" {
@@ -479,7 +513,7 @@ func cliExpect(tree []treeFile, v cliInv) cliExpected {
 		return ok
 	}
 	knownExt := func(path string) bool {
-		_, ok := cliExtMap[strings.TrimPrefix(filepath.Ext(path), ".")]
+		_, ok := extMap[strings.TrimPrefix(filepath.Ext(path), ".")]
 		return ok
 	}
 
@@ -699,7 +733,7 @@ func cliExpect(tree []treeFile, v cliInv) cliExpected {
 		if mt == "" && !t.copy {
 			bad := false
 			for _, s := range t.srcs {
-				m, ok := cliExtMap[strings.TrimPrefix(filepath.Ext(s), ".")]
+				m, ok := extMap[strings.TrimPrefix(filepath.Ext(s), ".")]
 				if !ok || (mt != "" && m != mt) {
 					bad = true
 					break
@@ -726,7 +760,7 @@ func cliExpect(tree []treeFile, v cliInv) cliExpected {
 					missing = true
 				}
 			}
-			if i > 0 && mt == cliExtMap["js"] {
+			if i > 0 && mt == extMap["js"] {
 				in = append(in, ";\n"...)
 			}
 			in = append(in, b...)
